@@ -20,7 +20,8 @@ RULE = ("scenario = 1-3 single-stage workflows (1-3 tasks, the flaky one at any 
         "S success, P permanent error); grid: k = 0..limit+3 consecutive transient failures x with/without update x "
         "position x FIFO/shuffled delivery; random: mixed scripts, processor-level redeliveries (poll + reschedule), lost "
         "acknowledgements (handler commits, worker dies before the processor's mark and the ack) and later redelivery of the "
-        "left-behind row, queue limit below/above the message limit. A case is distinct by its canonical (spec, recorded "
+        "left-behind row, queue limit below/above the message limit; the flaky task is a plain Task (engine default backoff), a "
+        "RetryableTask whose own backoff is ZERO (retry pushed with delay 0) or one of 1 ms (field bk). A case is distinct by its canonical (spec, recorded "
         "choice list); non-trivial when it has >= 1 retry/poll round trip")
 ASSUMPTIONS = [
     "a concurrent writer is one other client committing a context write to the same stage row right after the 1st / 2nd / 3rd "
@@ -131,7 +132,32 @@ def make_tasks():
         def execute(self, stage):  # noqa: ANN001
             return TaskResult.success()
 
-    return {"scripted": Scripted, "ok": Ok}
+    # the same scripted task as a RetryableTask that chooses its own backoff: ZERO (the retry message is pushed with delay 0,
+    # the branch of push_message / the queue a default >= 1 s backoff never takes) or one millisecond
+    from datetime import timedelta
+
+    from stabilize.tasks.interface import RetryableTask
+
+    def retryable(backoff: timedelta):
+        class ScriptedRetryable(RetryableTask):
+            def get_timeout(self):
+                return timedelta(days=1)
+
+            def get_backoff_period(self, stage, duration):  # noqa: ANN001
+                return backoff
+
+            def execute(self, stage):  # noqa: ANN001
+                return Scripted.execute(self, stage)
+
+        return ScriptedRetryable
+
+    return {"scripted": Scripted, "ok": Ok, "scriptedR0": retryable(timedelta(0)), "scriptedR1": retryable(timedelta(milliseconds=1))}
+
+
+def impl_class(w: dict) -> str:
+    """scenario field `bk`: absent / None = plain Task (engine's default backoff), 0 = RetryableTask with zero backoff, 1 = 1 ms"""
+    bk = w.get("bk")
+    return "scripted" if bk is None else f"scriptedR{int(bk)}"
 
 
 # ------------------------------------------------------------------------------------------------
@@ -168,7 +194,7 @@ def run_scenario(env: ProcEnv, scn: dict, rng, ctx=None, verbose: bool = False) 
         WORLD[cid] = {"spec": w, "n": 0, "seen": [], "acts": []}
         sctx = {"chain": cid}
         sctx.update({f"k{int(k)}": v for k, v in w["ctx"].items()})
-        tasks = [TaskExecution.create(name=f"t{j}", implementing_class="scripted" if j == w["pos"] else "ok",
+        tasks = [TaskExecution.create(name=f"t{j}", implementing_class=impl_class(w) if j == w["pos"] else "ok",
                                       stage_start=(j == 0), stage_end=(j == w["T"] - 1)) for j in range(w["T"])]
         wf = Workflow.create(application="c14", name=f"w{cid}",
                              stages=[StageExecution(ref_id="a", type="t", name="a", context=sctx, tasks=tasks)])
@@ -418,7 +444,7 @@ def grid(ctx, rng) -> list[dict]:
                 for mode in (("fifo", "shuffle") if ctx.thorough else (("fifo", "shuffle")[n % 2],)):
                     n += 1
                     w = {"T": T, "pos": p, "ctx": ({"0": 4} if style else {}), "script": [f"F{upd_for(i, style)}" for i in range(k)],
-                         "dflt": "S"}
+                         "dflt": "S", "bk": (None, 0, 1, None)[(n + k) % 4]}
                     wfs = [w]
                     if mode == "shuffle":
                         # a second workflow in the same queue so that the order is a real choice
@@ -447,7 +473,7 @@ def random_scn(rng) -> dict:
                 break
         dflt = rng.choice(["F", "F1:1", "S", "S2:2", "P"])
         wfs.append({"T": T, "pos": rng.randrange(T), "ctx": {str(k): rng.randint(-5, 5) for k in rng.sample(range(6), rng.randint(0, 3))},
-                    "script": script, "dflt": dflt})
+                    "script": script, "dflt": dflt, "bk": rng.choice([None, None, 0, 0, 1])})
     return {"qmax": rng.choice([10, 10, 10, 12, 3, 5]), "mode": rng.choice(["fifo", "shuffle"]), "wfs": wfs,
             "px": rng.choice([0.0, 0.0, 0.15, 0.3]), "pl": rng.choice([0.0, 0.15, 0.3]),
             "pc": rng.choice([0.0, 0.0, 0.3, 0.6]), "tag": "random"}
@@ -478,7 +504,8 @@ def _run_batch(ctx, scns: list[dict], suite: str, rng) -> None:
             canon = {k: scn[k] for k in ("qmax", "mode", "wfs")}
             canon["choices"] = res["choices"]
             ctx.count(canon, nontrivial=any(rt > 0 for *_, rt in res["lines"]))
-            ctx.tag(scn.get("tag", "?").split("-k")[0], f"mode-{scn['mode']}", *res.get("tags", []))
+            ctx.tag(scn.get("tag", "?").split("-k")[0], f"mode-{scn['mode']}", *res.get("tags", []),
+                    *{f"backoff-{ {None: 'engine-default', 0: 'zero', 1: '1ms'}[w.get('bk')] }" for w in scn["wfs"]})
             for i, dl, il, _rt in res["lines"]:
                 inputs.append({"scenario": canon, "wf": i})
                 lines.append(dl)
